@@ -161,3 +161,13 @@ PROPERTIES["C01"]["rules"] += [ker.ker_dispatchers, ker.ker_funcrep, ker.ker_fun
 PROPERTIES["C02"]["rules"] += [ker.ker_dispatchers]
 PROPERTIES["C08"]["rules"] += [ker.ker_dispatchers, ker.ker_argmax]
 PROPERTIES["C01"]["explanation"] += " Signature of u_and_f (prefix filter, by-name rebinding) (R10.SIG); dispatchers and value-function representation agree with their reference forms (KER)."
+
+PROPERTIES["C06"]["rules"] += [eff.effects]
+PROPERTIES["C06"].setdefault("filter", {})["R8.EFF"] = lambda o: "simulate.simulate" in o.key or "solve_brute.solve" in o.key or o.key.startswith("EFF1:all-stores")
+PROPERTIES["C06"]["explanation"] += " The value-array list handed to simulate is not modified (R8, restricted to solve/simulate)."
+PROPERTIES["C12"]["rules"] += [ker.ker_nextstate, ker.ker_nextstate_dag, ker.ker_routing, ker.ker_modeldags, ker.ker_util, ker.ker_funcrep_guard]
+PROPERTIES["C12"]["explanation"] += " Build-phase assembly functions (next-state DAGs, routing closures, model DAGs, variable info) agree with their reference forms (KER): a slip there turns an accepted model into an internal error."
+PROPERTIES["C08"]["rules"] += [ker.ker_panel]
+PROPERTIES["C10"]["rules"] += [bel.bellman_form, qa.qa_siblings]
+PROPERTIES["C10"].setdefault("filter", {})["R13.ALG1"] = lambda o: o.key.startswith(("AX6", "ALG1:stochastic", "ALG1:nonlast:states", "ALG1:last:states"))
+PROPERTIES["C10"]["explanation"] += " Node axes of values and weights come from one list in one order, whatever the declaration order of functions (AX6); sibling selections (QA3)."
